@@ -46,6 +46,8 @@ pub ghost enum ShownV {
     Value(emit::value::Value<'static>),
     /// the `Display` of trace id (128 bit) / span id (64 bit) number `n`: lower-case hex (otlp_raw_ids)
     Id { bits: int, n: int },
+    /// the number `n` in lower-case hex with as many digits as it needs (`format_args!("{:x}", n)`): leading zeros lost
+    HexMin { n: int },
 }
 /// the value of a hand-built attribute
 pub ghost enum AttrVal {
@@ -289,6 +291,29 @@ pub mod emit {
 //@sig
                 ensures r == Level::Info,
 //@end
+        // src/level.rs:61 `#[derive(.. PartialEq, Eq, PartialOrd, Ord ..)]`: the derived order is the declaration order
+        // Debug < Info < Warn < Error (so that a comparison a maintainer writes instead of the `match` is judged)
+        pub open spec fn rank(l: Level) -> int { match l { Level::Debug => 0, Level::Info => 1, Level::Warn => 2, Level::Error => 3 } }
+        impl PartialEq for Level {
+            #[verifier::external_body]
+            fn eq(&self, other: &Level) -> bool { unimplemented!() }
+        }
+        impl vstd::std_specs::cmp::PartialEqSpecImpl for Level {
+            open spec fn obeys_eq_spec() -> bool { true }
+            open spec fn eq_spec(&self, other: &Level) -> bool { *self == *other }
+        }
+        impl PartialOrd for Level {
+            #[verifier::external_body]
+            fn partial_cmp(&self, other: &Level) -> Option<core::cmp::Ordering> { unimplemented!() }
+        }
+        impl vstd::std_specs::cmp::PartialOrdSpecImpl for Level {
+            open spec fn obeys_partial_cmp_spec() -> bool { true }
+            open spec fn partial_cmp_spec(&self, other: &Level) -> Option<core::cmp::Ordering> {
+                if rank(*self) < rank(*other) { Some(core::cmp::Ordering::Less) }
+                else if rank(*self) == rank(*other) { Some(core::cmp::Ordering::Equal) }
+                else { Some(core::cmp::Ordering::Greater) }
+            }
+        }
         impl super::super::sval::Shown for Level {
             open spec fn shown(&self) -> super::super::ShownV { super::super::ShownV::Level(*self) }
         }
@@ -587,4 +612,41 @@ pub proof fn lemma_keys_distinct()
         && KEY_EVT_KIND@.len() == 8 && KEY_SPAN_NAME@.len() == 9 && "exception.message"@.len() == 17 && "exception.stacktrace"@.len() == 20);
     assert(KEY_LVL@[0] != KEY_ERR@[0]);
     assert(KEY_TRACE_ID@[0] != KEY_EVT_KIND@[0]);
+}
+
+/// "the keys of the streamed attributes are pairwise distinct"
+pub open spec fn attr_keys_pairwise_distinct(s: Seq<Call>) -> bool {
+    forall|i: int, j: int, k: &str| 0 <= i < j < s.len() && call_has_key(s[i], k) ==> !call_has_key(s[j], k)
+}
+pub proof fn lemma_key_count_ge1(s: Seq<Call>, i: int, k: &str)
+    requires 0 <= i < s.len(), call_has_key(s[i], k),
+    ensures key_count(s, k) >= 1,
+    decreases s.len(),
+{
+    if i < s.len() - 1 {
+        assert(s.drop_last()[i] == s[i]);
+        lemma_key_count_ge1(s.drop_last(), i, k);
+    }
+}
+pub proof fn lemma_key_count_ge2(s: Seq<Call>, i: int, j: int, k: &str)
+    requires 0 <= i < j < s.len(), call_has_key(s[i], k), call_has_key(s[j], k),
+    ensures key_count(s, k) >= 2,
+    decreases s.len(),
+{
+    if j < s.len() - 1 {
+        assert(s.drop_last()[i] == s[i] && s.drop_last()[j] == s[j]);
+        lemma_key_count_ge2(s.drop_last(), i, j, k);
+    } else {
+        assert(s.drop_last()[i] == s[i]);
+        lemma_key_count_ge1(s.drop_last(), i, k);
+    }
+}
+/// no key counted twice = pairwise distinct keys
+pub proof fn lemma_count_le1_pairwise(s: Seq<Call>)
+    requires forall|k: &str| key_count(s, k) <= 1,
+    ensures attr_keys_pairwise_distinct(s),
+{
+    assert forall|i: int, j: int, k: &str| 0 <= i < j < s.len() && call_has_key(s[i], k) implies !call_has_key(s[j], k) by {
+        if call_has_key(s[j], k) { lemma_key_count_ge2(s, i, j, k); }
+    }
 }
